@@ -4,7 +4,7 @@ from __future__ import annotations
 import ast
 
 from ..cfg import NORMAL, ALL, walk_local
-from ..facts import (cfg_of, call_name, calls_in, targets_of, guard_atoms,
+from ..facts import (runs_only_when, cfg_of, call_name, calls_in, targets_of, guard_atoms,
                      is_attr, is_name, enclosing, local_assigns, kwarg,
                      const_value, strip_await, resolve_local, names_in,
                      bind_args)
@@ -212,10 +212,8 @@ def r31(ctx) -> None:
             keep = []
             for c in tc:
                 nodes = fcfg.node_containing(c)
-                on_binary = any(
-                    t.kind == 'test' and guard_atoms(t.stmt.test) ==
-                    [('binary', True)] and fcfg.controlled_by(nd, t, 't')
-                    for nd in nodes for t in fcfg.nodes)
+                on_binary = any(runs_only_when(fcfg, nd, 'binary', True)
+                                for nd in nodes)
                 if not on_binary:
                     keep.append(c)
             tc = keep
@@ -231,10 +229,8 @@ def r31(ctx) -> None:
     rets = cfg.find(lambda n: isinstance(n.stmt, ast.Return))
     nb = []
     for r in rets:
-        for t in cfg.nodes:
-            if t.kind == 'test' and guard_atoms(t.stmt.test) == \
-                    [('binary', True)] and cfg.controlled_by(r, t, 'f'):
-                nb.append(txt(r.stmt.value))
+        if runs_only_when(cfg, r, 'binary', False):
+            nb.append(txt(r.stmt.value))
     R.check(sorted(nb) == ['msg', 'msg.body'], gb, gb.node,
             'get_body (non-binary) returns the part / its body unchanged',
             f'the non-binary branch of get_body returns {nb}')
@@ -285,9 +281,7 @@ def r31(ctx) -> None:
                             and 'nested[0]' in txt(n.stmt.value))
         if not unwraps:
             raise AnchorError(f'{nm}: message/rfc822 unwrapping not found')
-        stests = [t for t in gcfg.nodes if t.kind == 'test' and
-                  guard_atoms(t.stmt.test) == [('section', True)]]
-        R.check(all(any(gcfg.controlled_by(u, t, 't') for t in stests)
+        R.check(all(runs_only_when(gcfg, u, 'section', True)
                     for u in unwraps), g, unwraps[0].stmt,
                 f'{nm}: the embedded message is used only under `if '
                 f'section:`',
@@ -591,10 +585,8 @@ def r38(ctx) -> None:
     gcfg = cfg_of(gb)
     part_obj = set()
     for r in gcfg.find(lambda n: isinstance(n.stmt, ast.Return)):
-        for t in gcfg.nodes:
-            if t.kind == 'test' and guard_atoms(t.stmt.test) == \
-                    [('section', False)] and gcfg.controlled_by(r, t, 'f'):
-                part_obj.add(txt(r.stmt.value))
+        if runs_only_when(gcfg, r, 'section', True):
+            part_obj.add(txt(r.stmt.value))
     part_obj.discard('decoded')
     if part_obj != {'msg.body'}:
         raise AnchorError(f'get_body returns {part_obj} for a part')
